@@ -328,8 +328,9 @@ def r07_3(ctx: Ctx):
     elif not idx:
         st = INCONCLUSIVE
     else:
-        tt = canon(tables[0], defs)
-        if "CONFIG_CLASS_TO_DEME_CLASS" in tt:
+        tts = [canon(t_, defs) for t_ in tables]
+        tt = tts[0]
+        if any("CONFIG_CLASS_TO_DEME_CLASS" in t_ for t_ in tts):
             st = OK
         elif tt == f.params()[-1] or tt in f.params():
             st = VIOLATION  # only the user's table is consulted
@@ -342,9 +343,14 @@ def r07_3(ctx: Ctx):
         obs.append(ctx.ob("R07.3", f, f.node, status=INCONCLUSIVE, detail="DemeInitArgs construction not found", construct="init-args"))
     else:
         want = {"id": "new_id", "level": "target_level", "config": "config", "started_at": "metaepoch_count", "sprout_seed": "sprout_seed", "random_seed": "random_seed", "parent_deme": "parent_deme"}
-        got = {k.arg: norm(k.value) for k in dia[0].keywords}
+        from .common import ctor_arguments
+
+        amap = ctor_arguments(ctx, dia[0], "DemeInitArgs")
+        got = {k: canon(v_, defs) for k, v_ in (amap or {}).items()}
         bad = {k: got.get(k) for k, v in want.items() if got.get(k) != v}
-        obs.append(ctx.ob("R07.3", f, dia[0], status=OK if not bad else VIOLATION, detail="init args carry id/level/config/started_at/seed/parent/random_seed unchanged" if not bad else f"init args are rewired: {bad}", construct="init-args"))
+        # positive evidence: a field receives another parameter / a constant, or is missing from a fully keyworded call
+        wrong = amap is not None and any(got.get(k) is None or got.get(k) in f.params() or isinstance((amap or {}).get(k), ast.Constant) for k in bad)
+        obs.append(ctx.ob("R07.3", f, dia[0], status=OK if not bad else VIOLATION if wrong else INCONCLUSIVE, detail="init args carry id/level/config/started_at/seed/parent/random_seed unchanged" if not bad else f"init args are rewired: {bad}", construct="init-args"))
     return obs
 
 
@@ -406,7 +412,10 @@ def r07_4(ctx: Ctx):
                 if isinstance(base_t, ast.Attribute) and base_t.attr in ("_levels", "_children") and isinstance(n, (ast.Assign, ast.AnnAssign, ast.AugAssign, ast.Delete)):
                     if base_t.attr == "_levels" and f.cls is tree and f.name == "__init__" and t is base_t:
                         ok = isinstance(n.value, ast.ListComp) and isinstance(n.value.elt, ast.List) and not n.value.elt.elts
-                        obs.append(ctx.ob("R07.4", f, n, status=OK if ok else VIOLATION, detail="levels start as empty lists, one per configured level" if ok else f"levels initialised as `{norm(n.value)}`"))
+                        # positive evidence of a wrong start: one list object shared by every level (`[[]] * n`), or no levels at all
+                        shared = isinstance(n.value, ast.BinOp) and isinstance(n.value.op, ast.Mult) and any(isinstance(x, ast.List) and x.elts and isinstance(x.elts[0], ast.List) for x in (n.value.left, n.value.right))
+                        empty = isinstance(n.value, (ast.List, ast.Dict)) and not getattr(n.value, "elts", getattr(n.value, "keys", None))
+                        obs.append(ctx.ob("R07.4", f, n, status=OK if ok else VIOLATION if (shared or empty) else INCONCLUSIVE, detail="levels start as empty lists, one per configured level" if ok else f"levels initialised as `{norm(n.value)[:90]}`" + (": every level is the same list object" if shared else "")))
                     elif base_t.attr == "_children" and f is init and t is base_t:
                         ok = isinstance(n.value, ast.List) and not n.value.elts
                         obs.append(ctx.ob("R07.4", f, n, status=OK if ok else VIOLATION, detail="children start empty" if ok else "children do not start empty"))
